@@ -18,6 +18,11 @@
 //	  pause = milliseconds between the requests (rps schedule const 1000/pause per second instead of once(n)); cases with a
 //	          pause run concurrently with the others (own servers and recorder, no decoy hosts)
 //
+//	  instances = <n>[:<sc>]   sc = shared-client block of the gun config: n (no block, the default) | d<N> (enabled: false,
+//	          client-number: N) | e<N> (enabled: true, client-number: N)
+//	  resp    = <status>:<bytes>:<delay-ms>[:<rdv>]   rdv = 1: the target answers a request only when as many requests are in
+//	          flight at it as the pool has instances (or as are still to come), so the instances shoot in step, round by round
+//
 //	tr <salt>   -> one token <Struct>.<Field>:<configured>:<built> per field of phttp.TransportConfig and phttp.DialerConfig (see runTransport)
 //	  item = H k v                                   an in-file "[k: v]" line (uri, uripost only)
 //	       | E method uri scheme urlhost tag body nh {k v}*nh
@@ -26,9 +31,14 @@
 //
 // Observation (one line):
 //
-//	run=<ok|err> conn=<0|1> n=<records> {| <srv> <tls> method uri host body nh {k nv {v}*nv}*nh}*   (records sorted)
+//	run=<ok|err> conn=<carrying>/<accepted>/<probes> cl=<d0>/<b0>,<d1>/<b1>,.. n=<records> {| <srv> <tls> method uri host body nh {k nv {v}*nv}*nh}*   (records sorted)
 //	  srv  = T<k> (arrived at the target of pool k) | D (arrived at the decoy)
-//	  conn = keep-alive on: connections seen by the target <= instances; off: connections == requests
+//	  conn = connections that carried requests to the targets / connections the targets accepted / reachability probes of
+//	         PreResolveTargetAddr among the accepted ones (one per pool with a host-name target that is up at configuration time).
+//	         Judged by the extracted conn_ok: keep-alive on and per-instance clients: <= instances; keep-alive on and shared
+//	         client enabled: <= requests; keep-alive off: == requests.
+//	  cl   = per pool: distinct http clients among the guns the engine bound / number of guns it bound (BaseGun.Client of every
+//	         gun the pool's NewGun handed to the engine, read after the run; the warm-up gun is never bound)
 //
 // Header canonicalisation rule (stated in the evidence): headers are compared as a map sorted by
 // canonical key with their value lists in order; see dropAuto for the three headers net/http writes itself.
@@ -94,6 +104,10 @@ type wcase struct {
 	pause   int
 	passes  int
 	rdelay  int
+	rdv     bool
+	scBlock bool // the gun config has a shared-client block
+	scOn    bool
+	scNum   int
 	preload bool
 	rstatus int
 	rsize   int
@@ -134,7 +148,18 @@ func parseCase(line string) (*wcase, error) {
 		c.format = next()
 		c.ssl = next() == "1"
 		c.ka = next() == "1"
-		c.inst = num()
+		instf := strings.SplitN(next(), ":", 2)
+		var ierr error
+		if c.inst, ierr = strconv.Atoi(instf[0]); ierr != nil {
+			panic(ierr)
+		}
+		if len(instf) > 1 && len(instf[1]) > 0 && instf[1] != "n" {
+			c.scBlock = true
+			c.scOn = instf[1][0] == 'e'
+			if c.scNum, ierr = strconv.Atoi(instf[1][1:]); ierr != nil || (instf[1][0] != 'e' && instf[1][0] != 'd') {
+				panic("bad shared-client field")
+			}
+		}
 		c.tgt = next()
 		c.preload = next() == "1"
 		rf := strings.Split(next(), ":")
@@ -145,6 +170,7 @@ func parseCase(line string) (*wcase, error) {
 		if len(rf) > 2 {
 			c.rdelay, _ = strconv.Atoi(rf[2])
 		}
+		c.rdv = len(rf) > 3 && rf[3] == "1"
 		c.pools = num()
 		c.late = next() == "1"
 		c.pause = num()
@@ -281,10 +307,52 @@ type record struct {
 	body   []byte
 }
 
+// rendezvous: a request is answered only when `width` requests (or all that are still to come) are waiting at this
+// server, so that the instances of a pool shoot in step.  A request that waits longer than 2 s goes on alone (nothing
+// the property says depends on the rendezvous taking place; it only makes overlapping requests certain).
+type rendezvous struct {
+	mu      sync.Mutex
+	width   int
+	total   int
+	done    int
+	waiting int
+	gate    chan struct{}
+}
+
+func (r *rendezvous) wait() {
+	r.mu.Lock()
+	r.waiting++
+	need := r.total - r.done
+	if need > r.width {
+		need = r.width
+	}
+	if r.waiting >= need {
+		r.done += r.waiting
+		r.waiting = 0
+		close(r.gate)
+		r.gate = make(chan struct{})
+		r.mu.Unlock()
+		return
+	}
+	g := r.gate
+	r.mu.Unlock()
+	select {
+	case <-g:
+	case <-time.After(2 * time.Second):
+		r.mu.Lock()
+		if g == r.gate {
+			r.waiting--
+			r.done++
+		}
+		r.mu.Unlock()
+	}
+}
+
 type recorder struct {
 	status int
 	size   int
 	delay  int
+	rdv    map[string]*rendezvous // per target server, nil entries: no rendezvous
 	mu     sync.Mutex
 	recs   []record
 	conns  map[string]bool // connections seen by the target (remote addresses)
@@ -318,6 +386,9 @@ func handler(srv string, own *recorder) http.Handler {
 			status, size = rec.status, rec.size
 			if rec.delay > 0 {
 				time.Sleep(time.Duration(rec.delay) * time.Millisecond)
+			}
+			if rv := rec.rdv[srv]; rv != nil {
+				rv.wait()
 			}
 		}
 		w.Header().Set("Content-Type", "text/plain")
@@ -469,7 +540,7 @@ func runCaseOnce(line string) string {
 	if err != nil {
 		return "badcase"
 	}
-	rec := &recorder{conns: map[string]bool{}, status: c.rstatus, size: c.rsize, delay: c.rdelay}
+	rec := &recorder{conns: map[string]bool{}, status: c.rstatus, size: c.rsize, delay: c.rdelay, rdv: map[string]*rendezvous{}}
 	if c.pause == 0 {
 		curMu.Lock()
 		cur = rec
@@ -497,6 +568,11 @@ func runCaseOnce(line string) string {
 		hdrs = append(hdrs, fmt.Sprintf("[%s: %s]", h.k, h.v))
 	}
 
+	if c.rdv {
+		for k := 0; k < c.pools; k++ {
+			rec.rdv[fmt.Sprintf("T%d", k)] = &rendezvous{width: c.inst, total: total, gate: make(chan struct{})}
+		}
+	}
 	// one target server per pool, all on 127.0.0.1 (host-name targets: different ports of "localhost")
 	servers := make([]*httptest.Server, c.pools)
 	ports := make([]string, c.pools)
@@ -566,14 +642,18 @@ func runCaseOnce(line string) string {
 		if len(hdrs) > 0 {
 			ammo["headers"] = hdrs
 		}
+		gun := map[string]any{
+			"type": "http", "target": target, "ssl": c.ssl,
+			"disable-keep-alives": !c.ka,
+		}
+		if c.scBlock {
+			gun["shared-client"] = map[string]any{"enabled": c.scOn, "client-number": c.scNum}
+		}
 		pools = append(pools, map[string]any{
 			"id":     fmt.Sprintf("p%d", k),
 			"ammo":   ammo,
 			"result": map[string]any{"type": "discard"},
-			"gun": map[string]any{
-				"type": "http", "target": target, "ssl": c.ssl,
-				"disable-keep-alives": !c.ka,
-			},
+			"gun":    gun,
 			"rps-per-instance": false,
 			"rps":              rps,
 			"startup":          []any{map[string]any{"type": "once", "times": c.inst}},
@@ -596,8 +676,19 @@ func runCaseOnce(line string) string {
 			srv.Close()
 		}
 	}()
+	// every gun the engine asks a pool for is remembered (the warm-up gun and one per instance), to read its client afterwards
+	var gunsMu sync.Mutex
+	guns := make([][]core.Gun, len(conf.Engine.Pools))
 	for k := range conf.Engine.Pools {
 		conf.Engine.Pools[k].Aggregator = &aggr{}
+		k, orig := k, conf.Engine.Pools[k].NewGun
+		conf.Engine.Pools[k].NewGun = func() (core.Gun, error) {
+			g, err := orig()
+			gunsMu.Lock()
+			guns[k] = append(guns[k], g)
+			gunsMu.Unlock()
+			return g, err
+		}
 	}
 	eng := engine.New(zap.NewNop(), metrics, conf.Engine)
 	ctx, cancel := context.WithTimeout(context.Background(), 20*time.Second+time.Duration(total*c.pause)*time.Millisecond)
@@ -640,21 +731,62 @@ func runCaseOnce(line string) string {
 	if c.tgt == "name" && !c.late {
 		probe = c.pools
 	}
-	connOK := false
-	if c.ka {
-		connOK = len(rec.conns) <= c.inst*c.pools && rec.newc <= c.inst*c.pools+probe
-	} else {
-		connOK = len(rec.conns) == nT && rec.newc == nT+probe
-	}
 	run := "ok"
 	if runErr != nil {
 		run = "err"
 	}
-	out := fmt.Sprintf("run=%s conn=%s n=%d", run, vh.B(connOK), len(lines))
+	gunsMu.Lock()
+	var cls []string
+	for k := range guns {
+		d, b := boundClients(guns[k])
+		cls = append(cls, fmt.Sprintf("%d/%d", d, b))
+	}
+	gunsMu.Unlock()
+	out := fmt.Sprintf("run=%s conn=%d/%d/%d cl=%s n=%d", run, len(rec.conns), rec.newc, probe, strings.Join(cls, ","), len(lines))
 	for _, l := range lines {
 		out += " | " + l
 	}
 	return out
+}
+
+// boundClients: among the guns of one pool, those the engine bound (BaseGun.Aggregator set by Bind; the warm-up gun never
+// is) and how many distinct http clients (BaseGun.Client after Bind) they shoot through.  The registered factory returns
+// phttp.WrapGun(*BaseGun): a struct whose only field is the embedded, exported Gun interface.
+func boundClients(gs []core.Gun) (distinct, bound int) {
+	seen := map[string]bool{}
+	for _, g := range gs {
+		base := baseGunOf(g)
+		if base == nil || base.Aggregator == nil {
+			continue
+		}
+		bound++
+		id := fmt.Sprintf("%T:%v", base.Client, base.Client)
+		if v := reflect.ValueOf(base.Client); v.IsValid() && v.Kind() == reflect.Ptr {
+			id = fmt.Sprintf("%T:%x", base.Client, v.Pointer())
+		}
+		seen[id] = true
+	}
+	return len(seen), bound
+}
+
+func baseGunOf(g core.Gun) *phttp.BaseGun {
+	v := reflect.ValueOf(g)
+	for v.IsValid() && (v.Kind() == reflect.Ptr || v.Kind() == reflect.Interface) && !v.IsNil() {
+		if b, ok := v.Interface().(*phttp.BaseGun); ok {
+			return b
+		}
+		v = v.Elem()
+	}
+	if v.IsValid() && v.Kind() == reflect.Struct {
+		for i := 0; i < v.NumField(); i++ {
+			if f := v.Field(i); f.CanInterface() {
+				if b, ok := f.Interface().(*phttp.BaseGun); ok {
+					return b
+				}
+			}
+		}
+	}
+	return nil
 }
 
 func main() {
